@@ -5,6 +5,22 @@ V = os.path.dirname(os.path.dirname(os.path.abspath(__file__)))
 PY = "PYTHONPATH=/repo PYTHONHASHSEED=0 /venv/bin/python"
 
 CHECKS = {
+ "C09": dict(
+   text="(a) Effect policy: soundness theorem of the checker (an accepted check means every function reachable in the call graph from a sampling transition reads "
+        "randomness only through the object's own generator and no clock); the table itself is REGENERATED from hmclab's source by an AST scan on every run and "
+        "checked by vm_compute in coq/gen/Effects_gen.v. (b) the loop model has no clock / global stream / observer inputs; prefix theorem for shorter runs. Tie: "
+        "the same seeded run repeated under perturbed global numpy state, unrelated library activity, NPY vs HDF5, diagnostic mode, progress bar, visual samplers, "
+        "slow/fast write-buffer clocks, compared bitwise; doubled run length; seed+1; generate(rng=seeded) twice.",
+   note="Trusted: Coq kernel; the AST scanner (call edges by simple method name: over-approximation; effects by syntactic patterns); 'different seeds differ' is tested "
+        "only. One known finding: LayeredRayTracing2D._search_angles reads NumPy's global stream.",
+   technique="Coq proof (checker soundness, prefix) + AST-generated effect table + differential byte comparison", ref="5/C09"),
+ "C20": dict(
+   text="Three theorems: with exchange disabled the per-chain loop of the parallel controller IS the sequential loop (induction over the event stream, any sampler / "
+        "thinning); chain i receives element i of per-chain initial models / kwargs, or the shared one, or none. Tie: real multiprocess ParallelSampleSMP runs (1-4 chains, "
+        "HMC/RWMH mixes, per-chain/shared/no kwargs and initial models) compared bitwise, chain by chain, with stand-alone runs of deep copies taken before; attribute "
+        "and RNG-state snapshots of the handed-in samplers, results files of earlier runs, reuse afterwards.",
+   note="Trusted: Coq kernel; harness; fork/pickling of multiprocess; OS scheduling is not controlled (without exchange the chains do not communicate).",
+   technique="Coq proof (loop equality, routing) + differential multiprocess runs", ref="5/C20"),
  "C18": dict(
    text="Five theorems over the layered ray model (any number of layers, interfaces, velocities, offsets, ray parameters): sin/velocity equals the ray parameter in "
         "every segment; every segment goes down and towards (never beyond) the receiver line; travel time = sum len/velocity and length = sum len; in a homogeneous "
